@@ -398,6 +398,7 @@ def eval_int_flow(tu, fname, prefix, fields_by_type=None):
     """lenient abstract evaluation of a whole function (integer flow, struct fields, stores, calls)"""
     ev = tc.Ev(tu)
     ev.lenient = True
+    ev.inline_calls = True  # helpers that fill the struct through the pointer are followed
     env = tc.new_env({p["id"]: prefix + str(p.get("name")) for p in tu.params(fname)})
     if fields_by_type:
         env["fields_by_type"] = dict(fields_by_type)
@@ -499,18 +500,33 @@ def rule_feat_orders_position(chk, ic, tu):
 class IChain:
     def __init__(self, chk, py, tu):
         self.tu = tu
-        lads = [l for l in tc.c_dispatch_tables(tu, LADDER_FUNC)
+        # the dispatch may sit in the anchored function or in a helper it calls
+        lads = [(f, l) for f, l in tc.c_dispatch_tables_deep(tu, LADDER_FUNC)
                 if all(tc.single_assignment(a["stmt"]) and tc.func_ref(tc.single_assignment(a["stmt"])[1]) for a in l["arms"])]
         if len(lads) != 1:
             raise core.AnalysisError("%s: expected one dispatch (`if (id == k) fptr = &f` ladder or switch), found %d" % (
                 LADDER_FUNC, len(lads)))
-        lad = lads[0]
+        self.ladder_func, lad = lads[0]
         self.ladder_falls = lad["falls"]
         ps = tu.params(LADDER_FUNC)
         pn = [p.get("name") for p in ps]
-        if lad["var"] not in pn:
-            raise core.AnalysisError("%s: the ladder tests %s, which is not a parameter" % (LADDER_FUNC, lad["var"]))
-        self.id_param_index = pn.index(lad["var"])
+        if self.ladder_func == LADDER_FUNC:
+            if lad["var"] not in pn:
+                raise core.AnalysisError("%s: the ladder tests %s, which is not a parameter" % (LADDER_FUNC, lad["var"]))
+            self.id_param_index = pn.index(lad["var"])
+        else:
+            hp = [p.get("name") for p in tu.params(self.ladder_func)]
+            if lad["var"] not in hp:
+                raise core.AnalysisError("%s: the ladder tests %s, which is not a parameter" % (self.ladder_func, lad["var"]))
+            idx = None
+            for nm, call, caller in tc.callees_of(tu, LADDER_FUNC, 1):
+                if nm == self.ladder_func and caller == LADDER_FUNC:
+                    a = cfacts.strip(cfacts.kids(call)[1 + hp.index(lad["var"])])
+                    if a.get("kind") == "DeclRefExpr" and a["referencedDecl"].get("name") in pn:
+                        idx = pn.index(a["referencedDecl"]["name"])
+            if idx is None:
+                raise core.AnalysisError("%s passes something else than its id parameter to %s" % (LADDER_FUNC, self.ladder_func))
+            self.id_param_index = idx
         self.ladder = {}
         self.ladder_loc = {}
         tgt = set()
@@ -521,7 +537,7 @@ class IChain:
                 if v in self.ladder:
                     raise core.AnalysisError("%s: id %s appears twice in the ladder" % (LADDER_FUNC, v))
                 self.ladder[v] = tc.func_ref(r)
-                self.ladder_loc[v] = (F_CONV, LADDER_FUNC, "%s == %s: %s = &%s" % (lad["var"], v, sorted(tgt)[0], tc.func_ref(r)),
+                self.ladder_loc[v] = (F_CONV, self.ladder_func, "%s == %s: %s = &%s" % (lad["var"], v, sorted(tgt)[0], tc.func_ref(r)),
                                       tu.line_of(a["node"]))
         if len(tgt) != 1:
             raise core.AnalysisError("%s: the ladder assigns different variables %s" % (LADDER_FUNC, sorted(tgt)))
@@ -540,13 +556,13 @@ class IChain:
         if not found:
             raise core.AnalysisError("no call of %s passes an element of icontrib_ids as the feature id" % LADDER_FUNC)
         # feat_orders ladder
-        ol = [l for l in tc.c_dispatch_tables(tu, ORDERS_FUNC) if "icontrib_ids" in l["var"]
+        ol = [(f, l) for f, l in tc.c_dispatch_tables_deep(tu, ORDERS_FUNC) if "icontrib_ids" in l["var"]
               and all(tc.single_assignment(a["stmt"]) and tc.const_int(tc.single_assignment(a["stmt"])[1]) is not None
                       for a in l["arms"])]
         if len(ol) != 1:
-            raise core.AnalysisError("%s: expected one ladder on icontrib_ids assigning feat_orders, found %d" % (
-                ORDERS_FUNC, len(ol)))
-        ol = ol[0]
+            raise core.AnalysisError("%s (and the helpers it calls): expected one ladder on icontrib_ids assigning "
+                                     "feat_orders, found %d" % (ORDERS_FUNC, len(ol)))
+        self.orders_func, ol = ol[0]
         self.orders = {}
         self.orders_loc = {}
         lhs = set()
@@ -555,7 +571,7 @@ class IChain:
             lhs.add(tc.norm_c(tu.text_of(l)))
             for v in a["values"]:
                 self.orders[v] = tc.const_int(r)
-                self.orders_loc[v] = (F_CONV, ORDERS_FUNC, "%s == %s: %s = %s" % (ol["var"], v, tc.norm_c(tu.text_of(l)),
+                self.orders_loc[v] = (F_CONV, self.orders_func, "%s == %s: %s = %s" % (ol["var"], v, tc.norm_c(tu.text_of(l)),
                                                                                   tc.const_int(r)), tu.line_of(a["node"]))
         # abstract evaluation of the constructor: struct fields, allocation of feat_orders, positions written
         self.producer = eval_int_flow(tu, ORDERS_FUNC, "p:")
